@@ -42,7 +42,7 @@ def run_variant(v):
         text = open(src).read()
     except OSError:
         return (pid, name, 'skipped', 'file missing')
-    if text.count(old) != 1:
+    if text.count(old) != 1 and not (name.startswith('all:') and text.count(old) > 1):
         return (pid, name, 'skipped', 'site not found exactly once (%d)' % text.count(old))
     mutated = text.replace(old, new)
     try:
